@@ -76,7 +76,7 @@ class MapState:
     """Slot exceptions of one container relative to INV at its current len."""
     __slots__ = ('len', 'cap', 'holes', 'extras', 'hole_rng', 'extra_rng', 'contents',
                  'exempt', 'dead', 'owned_extras', 'name', 'len0', 'examined', 'phantom',
-                 'entry_inv', 'borrowed', 'pending', 'asked', 'asked_carry')
+                 'entry_inv', 'borrowed', 'pending', 'asked', 'asked_carry', 'replaced')
 
     def __init__(self, len_, cap, name):
         self.len = len_
@@ -98,6 +98,7 @@ class MapState:
         self.asked_carry = None   # key tag of an asked element that is being moved (read out, not yet written back)
         self.pending = None       # (idx, scanned key tag): slot covered by len += 1 but not written yet
         self.borrowed = False     # lives behind a reference given to the root (survives the call)
+        self.replaced = None      # id of the container value that was assigned over this one (`*self = new`)
 
     def copy(self):
         m = MapState.__new__(MapState)
